@@ -98,3 +98,18 @@ PROPS["C16"] = dict(
     assumptions=["batch sizes are multiples of 4 clocks (every caller passes machine cycles x 4)"],
     replay={"c16_txn_*": "solver-only", "c16_idle_*": "solver-only", "c16_batch_split": "solver-only", "*": "playback"},
 )
+
+PROPS["C18"] = dict(
+    level="model_checking",
+    groups=lambda tier, seed, ctx: [Group("c18", ["verif_c18"], features=["jit"], jobs=8, harness_timeout=1200, mem_gb=16)],
+    functions=["devices::serial::SerialComms::{set_data,set_control,get_data}", "devices::io::IO::set_byte (0x01/0x02 routing)", "mem::{memory_write_byte,memory_write_word,memory_read_byte}",
+               "cache::CodeCache::translate_code_block + emitter::Emitter::encode_op (quietness)"],
+    bounds={"quick": "port: all SB x SC values; bus routing: one write at any of 65536 addresses with any value after an arbitrary SB; sequences of 4 arbitrary writes to SB/SC "
+                     "(order and values symbolic); 16-bit store at 0xFF01; translation of a block with the arena write cursor anywhere in the last 10 KiB",
+            "thorough": "sequences of 7 writes"},
+    outside=["identical bus writes in translated code are C01's obligation (same bus trace)", "output of main() before the core runs (banner, fallback listing)",
+             "the dump_disassembly cargo feature (a debugging build that prints by design)"],
+    stubs=CTOR_STUBS + ["Stdout::write/flush and std::io::_print -> byte recorder (native replay captures file descriptor 1 instead)", "cache::linux::apply_protection -> no-op (mprotect FFI)", "Emitter::encode_op/encode_epilogue -> 'writes 1..=64 / 3 bytes' in the quietness harness only"],
+    assumptions=[],
+    replay={"*": "playback"},
+)
